@@ -313,7 +313,12 @@ def run_one(choices, params):
                     else:
                         so = net.SockObj()
                         so.settimeout(2)
-                        so.connect(("10.1.0.100", PORT))
+                        try:
+                            so.connect(("10.1.0.100", PORT))
+                        except OSError as e:
+                            # nobody listens any more: the registry's main loop has ended
+                            raise core.Violation("loop-dead/" + kindh, "a TCP client cannot connect to the registry (%s): %r" % (
+                                e, box.get("died")), sig=kindh)
                         mode = w.pick(("send", "send", "silent", "half", "reset", "close"))
                         if mode == "close":
                             # connects and leaves without a single byte (a client that crashed between connect and send)
